@@ -25,7 +25,7 @@ PROPERTY = 'C08'
 LEVEL = 'fault_enumeration'
 SIGMA = bytes.fromhex('00 01 02 03 04 05 06 09 0A 0C 13 17 18 1E 1F 23 24 30 31 7F 80 81 82 84 A0 BF FF')
 RULE = ('(a) EVERY byte string of length <= L (L=3 quick, 4 thorough) over the 27-octet structural alphabet; (a2) under each of 12 primitive universal tags EVERY content string of length <= 3/4 over a 16-octet content alphabet, and REAL under every first content octet x 17 payloads; '
-        '(a4) 14 string types x 16 texts (incl. octets invalid in the character set of the type, odd lengths for 2/4-octet sets) x 19 ways of framing a string (primitive; 1-2 fragments; a fragment that is itself constructed, definite or indefinite, up to two levels; empty; wrong fragment type; definite and indefinite outer header), bare and inside SEQUENCEs, decoded without a type, as ANY and under the string type; (a3) boundary magnitudes: declared lengths within -13..+2 (thorough -20..+5) of 2**31, 2**32, 2**63, 2**64 under 12 tag kinds, minimal and padded length form, bare and inside an indefinite SEQUENCE; decimal REALs (NR1/NR2/NR3) with 1..4400 digits and exponents up to 4400 digits; binary REALs with 2..21-octet exponents in every base/scale; 127..5000-octet INTEGER/OID/ENUMERATED/BIT STRING/BOOLEAN/NULL contents; '
+        '(a4) 14 string types x 16 texts (incl. octets invalid in the character set of the type, odd lengths for 2/4-octet sets) x 19 ways of framing a string (primitive; 1-2 fragments; a fragment that is itself constructed, definite or indefinite, up to two levels; empty; wrong fragment type; definite and indefinite outer header), bare and inside SEQUENCEs, decoded without a type, as ANY and under the string type; (a5) records with an open type field ([0] IMPLICIT ANY members of a SET OF; [1] EXPLICIT ANY OPTIONAL) resolved while decoding: every member content of length <= 3 (thorough 4) over an 8-octet alphabet x 4 governing values x definite/indefinite framing at each level, the result must hold value objects only; (a3) boundary magnitudes: declared lengths within -13..+2 (thorough -20..+5) of 2**31, 2**32, 2**63, 2**64 under 12 tag kinds, minimal and padded length form, bare and inside an indefinite SEQUENCE; decimal REALs (NR1/NR2/NR3) with 1..4400 digits and exponents up to 4400 digits; binary REALs with 2..21-octet exponents in every base/scale; 127..5000-octet INTEGER/OID/ENUMERATED/BIT STRING/BOOLEAN/NULL contents; '
         'Sigma = %s; (b) the complete single-mutation neighbourhood (replace each octet by each sigma, delete, '
         'insert sigma, truncate, rewrite first length octet to {00,7F,80,81,84FFFFFFFF,87FF..,88FF..,8901 00..,FE 01..}, empty the content of each constructed element) of every seed encoding '
         '(cover set, all forms, |e| <= 24 quick / 40 thorough); (a3 also as a real file on disk, buffered and unbuffered;) x decoders {BER,CER,DER} x {one-shot on bytes, '
@@ -64,6 +64,9 @@ MAGNITUDE_SPECS = [
     ('setof-int-size', ('CON', ('SZ', 1, 1), ('SETOF', INT))),
     ('bits-size', ('CON', ('SZ', 1, 2), BITS)),
     ('enum', ('ENUM', (('a', 0), ('b', 1)))),
+    ('int-union', ('CON', ('OR', ('VR', 0, 5), ('VR', 10, 20)), INT)),
+    ('int-except', ('CON', ('AND', ('VR', -9, 9), ('NOT', ('SV', 3))), INT)),
+    ('oid', U.OID),
 ]
 
 
@@ -82,11 +85,36 @@ def _alarm(signum, frame):
     raise Timeout()
 
 
+def sentinel_inside(obj, depth=0):
+    """a decoded value must be made of value objects only: no end-of-octets marker, None or bare placeholder among
+    the stored members (raw walk, no pyasn1 method is called)"""
+    from pyasn1.codec.ber import eoo
+    if depth > 30:
+        return None
+    cv = getattr(obj, '__dict__', {}).get('_componentValues', None)
+    if cv is None or cv is pybase.noValue:
+        return None
+    members = list(cv.values()) if isinstance(cv, dict) else list(cv)
+    for m in members:
+        if m is pybase.noValue:
+            continue
+        if m is None or isinstance(m, eoo.EndOfOctets):
+            return type(m).__name__
+        bad = sentinel_inside(m, depth + 1)
+        if bad:
+            return bad
+    return None
+
+
 def judge_result(r):
     """-> None if acceptable, else (clause, text)"""
     if not isinstance(r, tuple) or len(r) != 2:
         return ('bad_return', 'decode returned %r' % (r,))
     obj, rest = r
+    if isinstance(obj, pybase.Asn1Item):
+        bad = sentinel_inside(obj)
+        if bad:
+            return ('sentinel_in_value', 'the returned value holds a %s object as a member' % bad)
     if obj is None:
         return ('none_value', 'value is None')
     if not isinstance(obj, pybase.Asn1Item):
@@ -102,13 +130,20 @@ def judge_result(r):
     return None
 
 
+HANGS = [0]
+
+
 def run_case(data, decname, spec, streaming):
     """-> (clause, text, site) or None"""
+    if HANGS[0] >= 4:
+        # every further non-terminating case would cost the full watchdog time: four are reported, the rest of this
+        # worker's cases are not run (the check has failed already)
+        return None
     signal.setitimer(signal.ITIMER_VIRTUAL, 5.0)
     try:
         if not streaming:
             try:
-                r = DECODERS[decname](data, asn1Spec=spec)
+                r = DECODERS[decname](data, asn1Spec=spec, decodeOpenTypes=True)
             except pyerr.PyAsn1Error:
                 return None
             bad = judge_result(r)
@@ -118,7 +153,7 @@ def run_case(data, decname, spec, streaming):
         core = ST.ScheduledCore(data)
         s = ST.SeekableNB(core)
         steps = 0
-        it = iter(STREAMERS[decname](s, asn1Spec=spec))
+        it = iter(STREAMERS[decname](s, asn1Spec=spec, decodeOpenTypes=True))
         while True:
             steps += 1
             if steps > len(data) + 4:
@@ -139,6 +174,7 @@ def run_case(data, decname, spec, streaming):
             return ('read_bound', '%d reads for %d octets' % (core.log.reads, len(data)), 'streaming')
         return None
     except Timeout:
+        HANGS[0] += 1
         return ('hang', 'no termination within 5 s of CPU time', 'decoder')
     except MemoryError as e:
         return ('leak:MemoryError', exc_text(e), pyasn1_site(e))
@@ -315,6 +351,20 @@ def magnitudes(tier):
     huge = [tlv(9, b'\x83\x04\x3b\x9a\xca\x00\x01'), tlv(9, b'\x83\x08\x3f' + b'\xff' * 7 + b'\x01'),
             tlv(9, b'\x03' + b'1E' + b'9' * 12), tlv(2, b'\x7f' * 2048), tlv(2, b'\x80' + b'\x00' * 3000),
             tlv(3, b'\x00' + b'\xff' * 3000), tlv(10, b'\x7f' * 2048), tlv(6, b'\x2b' + b'\xff' * 3000 + b'\x01')]
+    # identifiers with thousands of continuation octets, huge OID arcs followed by damage
+    for n in (600, 3000):
+        lt = b'\x1f' + b'\xff' * n + b'\x01'
+        for first in (b'\x1f', b'\x3f', b'\x9f', b'\xbf', b'\xdf'):
+            t = first + lt[1:]
+            yield t + b'\x00'
+            yield t + b'\x01\x05'
+            yield t + b'\x80\x00\x00'
+            yield tlv(0x30, t + b'\x00')
+            yield b'\x30\x80' + t + b'\x01\x05\x00\x00'
+        yield tlv(6, b'\x2b' + b'\xff' * n + b'\x01' + b'\x81')
+        yield tlv(6, b'\x2b' + b'\xff' * n + b'\x01' + b'\x80\x01')
+        yield tlv(6, b'\xff' * n + b'\x01')
+        yield tlv(0x30, tlv(6, b'\x2b' + b'\xff' * n + b'\x01' + b'\x81'))
     for h in huge:
         yield h
         yield b'\x30\x80' + h + b'\x02\x01\x01\x00\x00'
@@ -366,6 +416,50 @@ def string_forms(tier):
                 yield ind(0x30, e + b'\x01\x01\xff')
 
 
+T_OPEN_SETOF = ('SEQ', (('id', INT, 'R', None), ('blob', ('SETOF', U.I(0, ANY)), 'R', None)))
+T_OPEN_ANY = ('SEQ', (('id', INT, 'R', None), ('blob', U.E(1, ANY), 'O', None)))
+
+
+def _open_specs():
+    from pyasn1.type import univ, namedtype, opentype, tag
+    ot = opentype.OpenType('id', {1: univ.Integer(), 2: univ.OctetString(), 3: univ.SequenceOf(componentType=univ.Boolean())})
+    t0 = tag.Tag(tag.tagClassContext, tag.tagFormatSimple, 0)
+    t1 = tag.Tag(tag.tagClassContext, tag.tagFormatSimple, 1)
+    B._spec_cache[T_OPEN_SETOF] = univ.Sequence(componentType=namedtype.NamedTypes(
+        namedtype.NamedType('id', univ.Integer()),
+        namedtype.NamedType('blob', univ.SetOf(componentType=univ.Any().subtype(implicitTag=t0)), openType=ot)))
+    B._spec_cache[T_OPEN_ANY] = univ.Sequence(componentType=namedtype.NamedTypes(
+        namedtype.NamedType('id', univ.Integer()),
+        namedtype.OptionalNamedType('blob', univ.Any().subtype(explicitTag=t1), openType=ot)))
+
+
+_open_specs()
+OPEN_SPECS = [('open-setof', T_OPEN_SETOF), ('open-any', T_OPEN_ANY), ('none', None)]
+
+
+def open_members(tier):
+    """records with an open type field resolved while decoding (decodeOpenTypes): every member content of length
+    <= 3 over a small alphabet x governing value {mapped to INTEGER / OCTET STRING / SEQUENCE OF, unmapped} x
+    definite / indefinite framing at each level"""
+    alpha = bytes.fromhex('00 01 02 04 05 30 80 ff')
+    L = 3 if tier == 'quick' else 4
+    for n in range(0, L + 1):
+        for c in itertools.product(alpha, repeat=n):
+            c = bytes(c)
+            for gid in (1, 2, 3, 9):
+                g = bytes([2, 1, gid])
+                m0 = bytes([0x80, len(c)]) + c
+                m0c = bytes([0xa0, len(c)]) + c
+                for m in (m0, m0c, b'\xa0\x80' + c + b'\x00\x00'):
+                    setof = bytes([0x31, len(m)]) + m
+                    yield bytes([0x30, len(g) + len(setof)]) + g + setof
+                    yield b'\x30\x80' + g + setof + b'\x00\x00'
+                    yield b'\x30\x80' + g + b'\x31\x80' + m + b'\x00\x00\x00\x00'
+                e1 = bytes([0xa1, len(c)]) + c
+                yield bytes([0x30, len(g) + len(e1)]) + g + e1
+                yield b'\x30\x80' + g + b'\xa1\x80' + c + b'\x00\x00\x00\x00'
+
+
 def spec_list(tier, part):
     if tier == 'quick' and part == 'a':
         return SPECS[:5]
@@ -414,6 +508,13 @@ def shard(tier, i, n, seed):
         tagnum = [x for x in data[:4] if x & 0x1f in STRING_TAGS and x & 0xc0 == 0]
         own = [s for s in specs_s if s[0] in ('none', 'any') or (tagnum and s[0] == 'tag%02x' % (tagnum[-1] & 0x1f))]
         guarded(R, lambda: run_all(data, 'strings', None, own, R, idx), {'data': data, 'origin': 'strings'}, {'strings'}, idx)
+    # (a5) open type fields resolved on decoding
+    specs_o = [(nm, (B.to_spec(T) if T else None), T) for nm, T in OPEN_SPECS]
+    for data in open_members(tier):
+        idx += 1
+        if (idx + seed) % n != i:
+            continue
+        guarded(R, lambda: run_all(data, 'opentype', None, specs_o, R, idx), {'data': data, 'origin': 'opentype'}, {'opentype'}, idx)
     # (b) mutation neighbourhoods
     for name, form, T, e in seeds(tier):
         own = ('own:' + name, B.to_spec(T), T)
